@@ -448,6 +448,11 @@ func runDrain(c *Case, r *mon.Rec, rng *rand.Rand) {
 		if b := req.Bytes(); b[0] == 0 && b[1] == 7 {
 			started <- struct{}{}
 			<-release
+			// a handler that respects its context, as one that forwards the request downstream does: a graceful Shutdown
+			// waits for it - it does not take its context away (nobody cancels the serve context in this scenario)
+			if e := ctx.Err(); e != nil {
+				return nil, fmt.Errorf("verif handler: context ended while Shutdown was waiting for this handler: %w", e)
+			}
 		}
 		return devH.Handle(ctx, req)
 	})
